@@ -329,7 +329,7 @@ func c03Rehome(p *chk.Prog, r *chk.Report) {
 	uns := g.Find(func(n ast.Node) bool {
 		return chk.InBody(rs, n) && f.MatchWith("RECV.Unassign(K)", asExpr(n), chk.H("K", svcK)) != nil
 	})
-	x.Check("SetPools:unassign-sites", rs.Pos(), len(uns) == 2, "", "expected the drop site and the re-home site")
+	x.Check("SetPools:unassign-sites", rs.Pos(), len(uns) >= 1, "", "no allocation is ever released by the walk")
 	// every allocation is judged again by poolFor (all its addresses, buggy-address avoidance included): no iteration
 	// ends on a weaker test
 	judged := chk.GEvent(f.ContainsPat("poolFor(RECV.pools.ByName, AL.ips)", chk.H("AL", al)))
@@ -341,27 +341,40 @@ func c03Rehome(p *chk.Prog, r *chk.Report) {
 	}
 	x.Check("SetPools:every-allocation-revalidated", rs.Pos(), okAll, "", "an allocation can be kept without poolFor being asked whether a pool still owns all its addresses (a shrunk pool or newly avoided .0/.255 address keeps its allocation; counters go negative, released addresses stay reserved)")
 	gone := g.GPat(true, "P == nil", chk.H("P", pool))
-	renamed := g.GPat(true, "P.Name != AL.pool", chk.H("P", pool), chk.H("AL", al))
-	for _, u := range uns {
-		switch {
-		case g.Dominated(u, gone):
-			x.OK("SetPools:unassign(no-pool)", u.Pos(), "")
-		case g.Dominated(u, renamed):
-			e := g.EdgesImplying(renamed)
-			okk := len(e) == 1
-			if okk {
-				w1 := g.BranchAlways(e[0], f.ContainsPat("RECV.assign(K, AL)", chk.H("K", svcK), chk.H("AL", al)))
-				w2 := g.BranchAlways(e[0], f.IsAssignPat("AL.pool", "P.Name", chk.H("AL", al), chk.H("P", pool)))
-				okk = !w1.Found && !w2.Found
-				// order: Unassign, rename, assign
-				w3 := g.MustPass(u, f.ContainsPat("RECV.assign(K, AL)", chk.H("K", svcK), chk.H("AL", al)), false, f.IsAssignPat("AL.pool", "P.Name", chk.H("AL", al), chk.H("P", pool)))
-				okk = okk && !w3.Found
+	renamed := chk.GOr(g.GPat(true, "P.Name != AL.pool", chk.H("P", pool), chk.H("AL", al)), g.GPat(true, "AL.pool != P.Name", chk.H("P", pool), chk.H("AL", al)))
+	sameName := chk.GOr(g.GPat(false, "P.Name != AL.pool", chk.H("P", pool), chk.H("AL", al)), g.GPat(false, "AL.pool != P.Name", chk.H("P", pool), chk.H("AL", al)))
+	isUn := func(n ast.Node) bool {
+		for _, u := range uns {
+			if n == u.Top {
+				return true
 			}
-			x.Check("SetPools:unassign(renamed):rehomes", u.Pos(), okk, "", "an allocation whose pool was renamed/re-grouped is released without being re-assigned under the new pool name")
-		default:
-			x.Fail("SetPools:unassign(unknown-reason)", u.Pos(), "an allocation is released although a pool still contains its addresses")
+		}
+		return false
+	}
+	isAssign := f.ContainsPat("RECV.assign(K, AL)", chk.H("K", svcK), chk.H("AL", al))
+	isRename := f.IsAssignPat("AL.pool", "P.Name", chk.H("AL", al), chk.H("P", pool))
+	for _, u := range uns {
+		// released only when no pool owns the addresses any more, or the owning pool has another name
+		x.Check("SetPools:unassign(reason)", u.Pos(), g.Dominated(u, chk.GOr(gone, renamed)), "", "an allocation is released although a pool of the same name still contains its addresses")
+		// order: Unassign, rename, assign
+		w3 := g.MustPass(u, isAssign, false, isRename)
+		x.Check("SetPools:unassign:rename-before-assign", u.Pos(), !w3.Found, "", "the allocation is re-assigned under its old pool name")
+	}
+	for _, a := range g.Find(func(n ast.Node) bool { return chk.InBody(rs, n) && isAssign(n) }) {
+		x.Check("SetPools:assign-after-unassign", a.Pos(), g.Dominated(a, chk.GEvent(isUn)), "", "an allocation is assigned again without its old bookkeeping being released first (counters are counted twice)")
+	}
+	// an iteration ends in one of three states: released because no pool owns the addresses; released and assigned again
+	// under the new name; or untouched, with a pool of the same name still owning the addresses
+	done := chk.GOr(
+		chk.GAnd(chk.GEvent(isUn), chk.GOr(gone, chk.GEvent(isAssign))),
+		chk.GAnd(g.GPat(false, "P == nil", chk.H("P", pool)), sameName))
+	okEnd := !loopHasBreak(g, rs)
+	for _, e := range g.LoopIteration(rs, done) {
+		if !e.OK {
+			okEnd = false
 		}
 	}
+	x.Check("SetPools:released-or-rehomed", rs.Pos(), okEnd, "", "an allocation whose addresses lost their pool is kept, or one whose pool was renamed/re-grouped is not released and re-assigned under the new pool name")
 }
 
 func asExpr(n ast.Node) ast.Expr {
